@@ -138,13 +138,14 @@ CHECKS["C12"] = {
     "engine": "HIST + CRASH over the real HnswIndex and the anda_db wrapper; recall over a declared seed set",
     "technique": "exhaustive history enumeration and exhaustive flush-write-prefix enumeration on the real HNSW index against a brute-force nearest-neighbour model; recall floors over a declared finite seed set and every crash prefix of the persistence workload",
     "design_ref": "DESIGN.md 5/C12",
-    "text": "hist: every history of <= 3 ops (thorough 4) over {insert a|b, remove, re-insert same/different vector, flush+load} on 7 vectors x 2 variants (incl. duplicate, opposite, zero), 4 metrics x 2 selection strategies x reconnect on/off x dims {2,8} plus a sweep over every dimension 2..64; after each history every stored and 3 out-of-distribution queries, k = 1..n+1, f32 and bf16 entry points: at most k results, distinct, live, distance-ordered, each distance equal to the metric recomputed in f64 from the documented formula, element count exact. crash: every prefix of the node/ids/metadata (and purge) writes of the final flush of every history to depth 2-3: the image loads, is sound immediately (old or new vector until the metadata write), after the database's recovery step (intent replay + repair scan transcription) and after a second flush+load. wrapper: the same through anda_db::index::Hnsw over Storage over the journalling store incl. purge_orphan_node_blobs. recall: the documented workloads of tests/recall.rs (generators and tie rule verbatim) per declared layer seed (quick {1,2}, thorough 1..16) hold their floors on fresh / deleted+re-inserted / reloaded indexes, and for the persistence workload at every one of the 594 crash prefixes of the incremental flush after re-indexing the 64 unflushed documents.",
+    "text": "hist: every history of <= 3 ops (thorough 4) over {insert a|b, remove, re-insert same/different vector, flush+load} on 7 vectors x 2 variants (incl. duplicate, opposite, zero), 4 metrics x 2 selection strategies x reconnect on/off x dims {2,8} plus a sweep over every dimension 2..64; after each history every stored and 3 out-of-distribution queries, k = 1..n+1, f32 and bf16 entry points: at most k results, distinct, live, distance-ordered, each distance equal to the metric recomputed in f64 from the documented formula, element count exact. crash: every prefix of the node/ids/metadata (and purge) writes of the final flush of every history to depth 2-3: the image loads, is sound immediately (old or new vector until the metadata write), after the database's recovery step (intent replay + repair scan transcription) and after a second flush+load. wrapper: the same through anda_db::index::Hnsw over Storage over the journalling store incl. purge_orphan_node_blobs. interleave: one mutation (insert of a new id / remove of a live id) issued from INSIDE every write closure of a flush (before each node write, before ids, before metadata), i.e. after the flush's snapshot and before its commit, for every history to depth 1-2: the image up to the metadata write loads to exactly the pre-mutation state; after flushing to quiescence + load the soundness oracle, the counts and self-query reachability (reachable before the round trip => reachable after) hold. recall: the documented workloads of tests/recall.rs (generators and tie rule verbatim) per declared layer seed (quick {1,2}, thorough 1..16) hold their floors on fresh / deleted+re-inserted / reloaded indexes, and for the persistence workload at every one of the 594 crash prefixes of the incremental flush after re-indexing the 64 unflushed documents.",
     "note": "Recall is a statistic: exhaustive only over the declared seed set and crash prefixes. Entry-point tie-breaks follow papaya's RandomState order (not controllable). Single-threaded index use; no nested crash during recovery of the vector index alone (C01 covers that at collection level).",
     "parts": [
         {"part": "hist", "crate": "vhnsw", "bin": "c12_hist", "budget_quick": 15, "budget_thorough": 900},
         {"part": "crash", "crate": "vhnsw", "bin": "c12_crash", "budget_quick": 18, "budget_thorough": 500},
         {"part": "recall", "crate": "vhnsw", "bin": "c12_recall", "budget_quick": 20, "budget_thorough": 300},
         {"part": "wrapper", "crate": "vhnsw", "bin": "c12_wrapper", "budget_quick": 8, "budget_thorough": 300},
+        {"part": "interleave", "crate": "vhnsw", "bin": "c12_interleave", "budget_quick": 10, "budget_thorough": 600},
     ],
 }
 
